@@ -13,6 +13,13 @@ def clean():
 
 
 def main():
+    import signal
+
+    def bail(signum, frame):       # a stopped run must not leave the patch applied
+        subprocess.run(["git", "-C", "/repo", "checkout", "--", "."])
+        sys.exit(3)
+    signal.signal(signal.SIGTERM, bail)
+    signal.signal(signal.SIGINT, bail)
     ids = sys.argv[1:] or sorted(p.name for p in SEEDED.iterdir() if (p / "patch.diff").exists())
     for sid in ids:
         d = SEEDED / sid
